@@ -170,3 +170,125 @@ theorem needMap_go_false (ids : List (List Nat)) : ∀ t, needMap.go t ids = fal
         · exact ih _ h id h1
 
 end Wellen.VcdHeader
+
+namespace Wellen.VcdHeader
+
+/-! ### bit ranges: `extract_suffix_index` reads back a rendered `[msb:lsb]` / `[i]` -/
+
+/-- the (position, byte) pairs from the back, as `extract_suffix_index` visits them -/
+def idxRev (value : List Nat) : List (Nat × Nat) := ((List.range value.length).zip value).reverse
+
+theorem extractSuffixIndex_eq (value : List Nat) : extractSuffixIndex value = extractGo value (idxRev value) .closing := rfl
+
+theorem idxRev_snoc (a : List Nat) (b : Nat) : idxRev (a ++ [b]) = (a.length, b) :: idxRev a := by
+  unfold idxRev
+  simp only [List.length_append, List.length_cons, List.length_nil, Nat.zero_add]
+  rw [List.range_succ, List.zip_append (by simp)]
+  simp
+
+/-- value of a digit string read from its least significant digit -/
+def valLsb : List Nat → Int
+  | [] => 0
+  | x :: r => ((x : Int) - 48) + 10 * valLsb r
+
+/-- decimal value of a digit string (most significant digit first) -/
+def decVal (ds : List Nat) : Int := valLsb ds.reverse
+
+def isDigits (ds : List Nat) : Prop := ∀ b ∈ ds, 48 ≤ b ∧ b ≤ 57
+def isSpaces (sp : List Nat) : Prop := ∀ b ∈ sp, b = 32
+
+theorem go_spaces (value a : List Nat) (st : XSt) : ∀ r : List Nat, isSpaces r →
+    extractGo value (idxRev (a ++ r.reverse)) st = extractGo value (idxRev a) st := by
+  intro r
+  induction r generalizing a with
+  | nil => intro _; simp
+  | cons x r ih =>
+    intro h
+    have hx : x = 32 := h x (by simp)
+    rw [List.reverse_cons, ← List.append_assoc, idxRev_snoc]
+    simp only [extractGo, hx, ↓reduceIte]
+    exact ih a (fun b hb => h b (by simp [hb]))
+
+theorem go_digits_lsb (value a : List Nat) (e : Nat) : ∀ (r : List Nat) (num f : Int), isDigits r →
+    extractGo value (idxRev (a ++ r.reverse)) (.lsb e num f) =
+      extractGo value (idxRev a) (.lsb e (num + f * valLsb r) (f * 10 ^ r.length)) := by
+  intro r
+  induction r with
+  | nil => intro num f _; simp [valLsb]
+  | cons x r ih =>
+    intro num f h
+    have hx := h x (by simp)
+    have h32 : ¬ x = 32 := by omega
+    rw [List.reverse_cons, ← List.append_assoc, idxRev_snoc]
+    simp only [extractGo, h32, ↓reduceIte, hx, and_self]
+    rw [ih _ _ (fun b hb => h b (by simp [hb]))]
+    congr 2
+    · simp only [valLsb]; rw [Int.mul_add, Int.mul_assoc]
+      rw [Int.add_assoc]; congr 1
+      rw [Int.mul_comm]
+    · rw [List.length_cons, Int.pow_succ, Int.mul_assoc]; congr 1; rw [Int.mul_comm]
+
+theorem go_digits_msb (value a : List Nat) (e : Nat) (l : Int) : ∀ (r : List Nat) (num f : Int), isDigits r →
+    extractGo value (idxRev (a ++ r.reverse)) (.msb e l num f) =
+      extractGo value (idxRev a) (.msb e l (num + f * valLsb r) (f * 10 ^ r.length)) := by
+  intro r
+  induction r with
+  | nil => intro num f _; simp [valLsb]
+  | cons x r ih =>
+    intro num f h
+    have hx := h x (by simp)
+    have h32 : ¬ x = 32 := by omega
+    rw [List.reverse_cons, ← List.append_assoc, idxRev_snoc]
+    simp only [extractGo, h32, ↓reduceIte, hx, and_self]
+    rw [ih _ _ (fun b hb => h b (by simp [hb]))]
+    congr 2
+    · simp only [valLsb]; rw [Int.mul_add, Int.mul_assoc]
+      rw [Int.add_assoc]; congr 1
+      rw [Int.mul_comm]
+    · rw [List.length_cons, Int.pow_succ, Int.mul_assoc]; congr 1; rw [Int.mul_comm]
+
+/-- text of a bound: an optional minus sign and decimal digits -/
+def numTxt (neg : Bool) (ds : List Nat) : List Nat := (if neg then [45] else []) ++ ds
+def sval (neg : Bool) (ds : List Nat) : Int := if neg then -(decVal ds) else decVal ds
+
+theorem isDigits_reverse (d : List Nat) (h : isDigits d) : isDigits d.reverse := fun b hb => h b (by simpa using hb)
+theorem isSpaces_reverse (d : List Nat) (h : isSpaces d) : isSpaces d.reverse := fun b hb => h b (by simpa using hb)
+
+theorem go_spaces' (value a : List Nat) (st : XSt) (sp : List Nat) (h : isSpaces sp) :
+    extractGo value (idxRev (a ++ sp)) st = extractGo value (idxRev a) st := by
+  have := go_spaces value a st sp.reverse (isSpaces_reverse sp h)
+  rwa [List.reverse_reverse] at this
+
+theorem go_num_lsb (value a : List Nat) (e : Nat) (neg : Bool) (ds : List Nat) (hd : isDigits ds) :
+    extractGo value (idxRev (a ++ numTxt neg ds)) (.lsb e 0 1) =
+      extractGo value (idxRev a) (.lsb e (sval neg ds) (10 ^ ds.length)) := by
+  cases neg with
+  | false =>
+    have := go_digits_lsb value a e ds.reverse 0 1 (isDigits_reverse ds hd)
+    rw [List.reverse_reverse] at this
+    simp only [numTxt, Bool.false_eq_true, ↓reduceIte, List.nil_append, sval, decVal]
+    rw [this]; simp
+  | true =>
+    have := go_digits_lsb value (a ++ [45]) e ds.reverse 0 1 (isDigits_reverse ds hd)
+    rw [List.reverse_reverse] at this
+    simp only [numTxt, ↓reduceIte, sval, decVal]
+    rw [← List.append_assoc, this, idxRev_snoc]
+    simp [extractGo]
+
+theorem go_num_msb (value a : List Nat) (e : Nat) (l : Int) (neg : Bool) (ds : List Nat) (hd : isDigits ds) :
+    extractGo value (idxRev (a ++ numTxt neg ds)) (.msb e l 0 1) =
+      extractGo value (idxRev a) (.msb e l (sval neg ds) (10 ^ ds.length)) := by
+  cases neg with
+  | false =>
+    have := go_digits_msb value a e l ds.reverse 0 1 (isDigits_reverse ds hd)
+    rw [List.reverse_reverse] at this
+    simp only [numTxt, Bool.false_eq_true, ↓reduceIte, List.nil_append, sval, decVal]
+    rw [this]; simp
+  | true =>
+    have := go_digits_msb value (a ++ [45]) e l ds.reverse 0 1 (isDigits_reverse ds hd)
+    rw [List.reverse_reverse] at this
+    simp only [numTxt, ↓reduceIte, sval, decVal]
+    rw [← List.append_assoc, this, idxRev_snoc]
+    simp [extractGo]
+
+end Wellen.VcdHeader
